@@ -105,9 +105,15 @@ def compare_direction(fi, defs, ret_value, candidate_names):
         d = single_def(defs, e.id)
         if d is not None:
             e = d
+    negated = False
+    while isinstance(e, ast.UnaryOp) and isinstance(e.op, ast.Not):
+        negated = not negated
+        e = e.operand
     if not (isinstance(e, ast.Compare) and len(e.ops) == 1):
         return None, 'not a single comparison: ' + src(e)
     a, b, op = e.left, e.comparators[0], type(e.ops[0])
+    if negated:
+        op = {ast.Gt: ast.LtE, ast.GtE: ast.Lt, ast.Lt: ast.GtE, ast.LtE: ast.Gt}.get(op, op)
     if op in (ast.Gt, ast.GtE):
         a, b = b, a
         op = {ast.Gt: ast.Lt, ast.GtE: ast.LtE}[op]
